@@ -28,10 +28,10 @@ func weighted(rng *rand.Rand, w []float64) int {
 }
 
 var (
-	layouts   = []string{"rich", "solo"}
-	storedCls = []string{"none", "wrong1", "wrongAll", "validAll"}
-	sharesCls = []string{"none", "k2"}
-	extras    = []string{"none", "gnosis", "service", "optimism"}
+	layouts    = []string{"rich", "solo"}
+	storedCls  = []string{"none", "wrong1", "wrongAll", "validAll"}
+	sharesCls  = []string{"none", "k2"}
+	extras     = []string{"none", "gnosis", "service", "optimism"}
 	shareKinds = []string{"valid", "otherKeyper", "otherId", "otherEon", "garbage", "badlen", "undecodable"}
 	keyKinds   = []string{"valid", "storedEqual", "wrong", "badlen", "undecodable"}
 	namedSets  = []string{"MemberOk", "NotMember", "NoResult", "Failed", "RestartNoResult", "RestartOk", "Unknown", "Overflow", "Wrap32"}
